@@ -77,6 +77,8 @@ BOUNDS = {
             "word16": {"ext": 1, "stride": 64},
             "x86": {"prefix": 3, "maps": 2, "second": 1, "tail": 1},
         }, _NAT),
+        # two interacting immediates (bit-field position x width, mask begin x end): boundary band of the pair product
+        "immpair": dict((n, {"mode": "band"}) for n in g.IMMPAIR_TARGETS),
         "shard": 512, "bundles": 16,
     },
     # thorough: curated + all bit flips for every target; the complete 16-bit axis for the native-order targets;
@@ -90,6 +92,7 @@ BOUNDS = {
             "word16": {"ext": 1},
             "x86": {"prefix": 7, "maps": 2, "second": 4, "tail": 2},
         }, _NAT),
+        "immpair": dict((n, {"mode": "full"}) for n in g.IMMPAIR_TARGETS),       # the complete pair product
         "shard": 4096, "bundles": 96,
     },
 }
